@@ -114,7 +114,18 @@ def run_mc(sdir, spec, tier):
 
 
 def run_gen(sdir, spec, tier, seed):
-    """Run a scenario-emitting TLC configuration; the emitted JSON values (one per line) go to a file."""
+    """Run a scenario-emitting TLC configuration; the emitted JSON values (one per line) go to a file.
+    spec may be a list of such configurations: their outputs are concatenated."""
+    if isinstance(spec, list):
+        path = os.path.join(sdir, "scenarios-%s.ndjson" % "+".join(sp["module"] for sp in spec))
+        total, last = 0, None
+        with open(path, "w") as out:
+            for sp in spec:
+                pth, n, last = run_gen(sdir, sp, tier, seed)
+                total += n
+                with open(pth) as src:
+                    shutil.copyfileobj(src, out)
+        return path, total, last
     cfgs = spec["cfg"][tier] if isinstance(spec["cfg"], dict) else spec["cfg"]
     if not isinstance(cfgs, list):
         cfgs = [cfgs]
@@ -594,8 +605,10 @@ MC_BUFFERS = dict(module="MC_Buffers", cfg="MC_Buffers.cfg", workers=4)
 MC_STREAMER = dict(module="MC_Streamer", cfg={"quick": "MC_Streamer.quick.cfg", "thorough": "MC_Streamer.thorough.cfg"}, workers=12)
 
 GEN_SESSION = dict(module="Gen_Session", cfg={"quick": "Gen_Session.quick.cfg", "thorough": ["Gen_Session.thorough.cfg", "Gen_Session.thorough2.cfg"]})
-GEN_CONN = dict(module="Gen_Conn", cfg={"quick": "Gen_Conn.quick.cfg", "thorough": "Gen_Conn.thorough.cfg"},
-                simulate={"quick": {"num": 150, "depth": 60}, "thorough": {"num": 2500, "depth": 80}})
+GEN_CONN = [dict(module="Gen_Conn", cfg={"quick": "Gen_Conn.quick.cfg", "thorough": "Gen_Conn.thorough.cfg"},
+                 simulate={"quick": {"num": 150, "depth": 60}, "thorough": {"num": 2500, "depth": 80}}),
+            # one script per transition of MC_Conn's state graph (quick: MaxPkts = 1, a twelfth of them chosen by the seed; thorough: MaxPkts = 2, all)
+            dict(module="Cover_Conn", cfg={"quick": "Cover_Conn.cfg", "thorough": "Cover_Conn.thorough.cfg"})]
 
 REGISTRY = {
     "C01": dict(mode="c01", mc=[MC_STREAMER], trace_module="Trace_Stream", trace_cfg="Trace_Stream.cfg", props=["C01"],
@@ -626,6 +639,8 @@ REGISTRY = {
                 rule="scenario = history x stop cause x stop point x reader state (lock-step: waiting for the network / burst: holding an "
                      "event) x handler fast / blocked-at-stop, followed by a clean attempt; run under go test -race; distinct by content. "
                      "Part 2: behaviours of MC_Conn drawn by TLC (Gen_Conn, simulation under a drawn environment plan: 150 quick / 2500 "
+                     "thorough) and one script per TRANSITION of MC_Conn's state graph (Cover_Conn: the shortest path to the source state plus "
+                     "the transition; a twelfth of the 1 569 transitions of the 1-packet graph in quick, all 5 428 of the 2-packet graph in "
                      "thorough) replayed on the real code with the library's hook points as scheduler gates, so that the real goroutines "
                      "take their steps in the order TLC chose; followed by a clean attempt"),
     "C06": dict(parts=[dict(mode="c06", conn=True, trace_module="Trace_Stream", trace_cfg="Trace_Stream.cfg", props=["C06"]),
